@@ -267,6 +267,40 @@ def run_lang(pid, unit, tier, seed, keep=False):
             shutil.rmtree(w, ignore_errors=True)
 
 
+def run_comp(pid, unit, tier, seed, keep=False):
+    """G1a: component-validity facts over the RFC reference automata, each a Verus-checked certificate (tools/complemmas.py).
+    They do not depend on /repo: they back the named axioms of contracts/15_comps.rs."""
+    import complemmas
+    t0 = time.time()
+    out = {"kind": "comp", "name": unit.get("name", "component-validity certificates"), "backend": "Verus 0.2026.09.13 / Z3 (bundled); state regions and product relations proposed by BFS (python, untrusted: checked by the lemmas)",
+           "violations": [], "undecided": [], "samples": [], "functions": [], "bounded": [], "obligations": 0, "discharged": 0}
+    w = engine.scratch_root()
+    try:
+        res = complemmas.check_all(w, rlimit=unit.get("rlimit", 600), only=unit.get("only"))
+        smt = 0.0
+        for r in res:
+            n = (r.get("lemmas") or 1) + 1
+            out["obligations"] += n
+            smt += r.get("smt_s") or 0
+            if r["status"] == "proved":
+                out["discharged"] += n
+                out["samples"].append({"certificate": r["fact"], "product_pairs": r.get("pairs"), "lemmas": r.get("lemmas"), "verified_functions": r.get("verified"), "smt_s": r.get("smt_s")})
+            elif r["status"] == "timeout":
+                out["undecided"].append({"what": "certificate %s timed out" % r["fact"]})
+            else:
+                out["undecided"].append({"what": "certificate %s rejected by Verus (a fact about the RFC grammar, independent of /repo; generator defect or false fact): %s" % (r["fact"], (r.get("stderr") or "")[-300:])})
+        out["functions"] = ["comp_%s" % k for k in complemmas.CERTS if not unit.get("only") or k in unit.get("only")]
+        out["checker_cmd"] = "verus comp_<name>.rs --rlimit %s  (%d files generated by tools/complemmas.py from /verif/spec/*.abnf)" % (unit.get("rlimit", 600), len(res))
+        out["smt_time_s"] = round(smt, 1)
+        out["trusted_base"] = ["Verus + Z3", "/verif/spec/rfc3986.abnf and tools/abnf.py (same reference automata as C01)",
+                               "the axioms axiom_comp_* of contracts/15_comps.rs restate the certificate theorems literally (same hypotheses; Seq<u8> for Seq<int>, cls(..) for the explicit character tests); the correspondence is by inspection"]
+        out["wall_s"] = round(time.time() - t0, 1)
+        return out
+    finally:
+        if not keep:
+            shutil.rmtree(w, ignore_errors=True)
+
+
 def _kani_counterexample(out):
     """extract concrete values printed by `--concrete-playback=print` (list of byte lists)"""
     vals = []
